@@ -3,8 +3,80 @@ Helper lemmas: closed forms of the header getters used on the receive path and n
 of the decoder.
 -/
 import Mctp.Model.Decode
+import Mctp.Spec.Accept
 import Mctp.Lemmas.Bitfield
 import Mctp.Lemmas.Crc
 namespace Mctp
+
+/-! ### the library's CRC is the specification's -/
+
+theorem crc8_eq_spec (xs : Bytes) : crc8 xs = Spec.crc xs := by
+  sorry
+
+theorem pecOk_eq (p : Bytes) (h : p ≠ []) :
+    Spec.pecOk p = (byteAt p (p.length - 1) == calcPec p) := by
+  sorry
+
+/-! ### closed forms of the getters the decoder uses -/
+
+theorem transportFromBufOk_eq (x0 x1 x2 x3 v : B) :
+    transportFromBufOk [x0, x1, x2, x3] v = ((x0 &&& 0xF0#8) == 0x00#8 && (x0 &&& 0x0F#8) == v) := by
+  sorry
+
+theorem bodyFromBufOk_eq (x : B) :
+    bodyFromBufOk [x] = ((x &&& 0x80#8) == 0x00#8 && MsgType.ofByte (x &&& 0x7F#8) != .invalid) := by
+  sorry
+
+theorem bodyMsgType_eq (p : Bytes) : bodyMsgType p = MsgType.ofByte (byteAt p 8 &&& 0x7F#8) := by
+  sorry
+
+theorem msgTypeOf_eq (p : Bytes) : Spec.msgTypeOf p = MsgType.ofByte (byteAt p 8 &&& 0x7F#8) := by
+  sorry
+
+theorem ctrl_rq_get (x y : B) : CtrlHdr.rq.get [x, y] = if x.msb then 1 else 0 := by
+  sorry
+
+theorem ctrl_cmd_get (x y : B) : BitVec.ofNat 8 (CtrlHdr.commandCode.get [x, y]) = y := by
+  sorry
+
+theorem srcEid_get (x0 x1 x2 x3 : B) :
+    BitVec.ofNat 8 (TransportHdr.sourceEndpointId.get [x0, x1, x2, x3]) = x2 := by
+  sorry
+
+theorem smbus_cmd_get (a b c d : B) : SMBusHdr.commandCode.get [a, b, c, d] = b.toNat := by
+  sorry
+
+theorem smbus_count_get (a b c d : B) : SMBusHdr.byteCount.get [a, b, c, d] = c.toNat := by
+  sorry
+
+/-! ### normal forms -/
+
+theorem getHeaders_eq (p : Bytes) :
+    getHeaders p =
+      if p.length < 10 then .err (.invalid, .unknown)
+      else if Spec.hdrOk p then .ok () else .err (.invalid, .unknown) := by
+  sorry
+
+theorem ctrlSelect_eq (cp : Bytes) :
+    ctrlSelect cp =
+      if (byteAt cp 0).msb then (reqDataLen (byteAt cp 1)).map fun n => (2, true, n)
+      else if cp.length < 4 then .err (.control, .ctl .len)
+      else if byteAt cp 2 ≠ 0x00#8 then (ccOf (byteAt cp 2)).bind fun c => .err (.control, .ctl (.cc c))
+      else (respDataLen (byteAt cp 1)).map fun n => (3, false, n) := by
+  sorry
+
+theorem decode_eq (p : Bytes) :
+    decode p =
+      if p.length < 10 then .err (.invalid, .unknown)
+      else if !Spec.hdrOk p then .err (.invalid, .unknown)
+      else
+        match Spec.msgTypeOf p with
+        | .control => (getCtrl (p.drop 9) (calcPec p)).bind fun c => .ok (.control, 9 + c.off, c.dataLen)
+        | .pci => vendorArm p (calcPec p) .pci
+        | .iana => vendorArm p (calcPec p) .iana
+        | .spdm => vendorArm p (calcPec p) .spdm
+        | .secured => vendorArm p (calcPec p) .secured
+        | .invalid => .err (.invalid, .unknown) := by
+  sorry
 
 end Mctp
